@@ -166,8 +166,10 @@ func (t *tcpTransport) Receive(ctx context.Context) (envelope, error) {
 }
 
 func (t *tcpTransport) Close() error {
-	if err := t.ensureOpen(); err != nil {
-		return err
+	// The connection must also be released after the end of the stream was reached
+	// (which makes the transport report itself as not connected)
+	if t.conn == nil {
+		return errors.New("transport is not open")
 	}
 
 	err := t.ctxConn.Close()
